@@ -755,8 +755,17 @@ impl Run {
                 }),
             );
         }
-        for (fid, what) in &st.known_seen {
-            println!("KNOWN-FINDING: property={} {} {}", self.prop, fid, what);
+        // one line per listed open finding of this property: how often this run met it (witness replay included)
+        if self.replay.is_none() && self.only.is_none() {
+            for f in &self.findings.open {
+                let n = tolerated.get(&f.id).copied().unwrap_or(0);
+                let met = if n > 0 || st.known_seen.contains_key(&f.id) { format!("[met {n}x in this run]") } else { "[listed; not met in this run]".to_string() };
+                println!("KNOWN-FINDING: property={} {} {} {}", self.prop, f.id, f.what, met);
+            }
+        } else {
+            for (fid, what) in &st.known_seen {
+                println!("KNOWN-FINDING: property={} {} {}", self.prop, fid, what);
+            }
         }
         let tier = match self.tier {
             Tier::Quick => "quick",
